@@ -77,3 +77,25 @@ pub fn cmd_val(args: &crate::Args) -> String {
         Err(_) => "err".into(),
     }
 }
+
+/// `docf`: the verdicts of every front end on the same bytes (C01 "the format-preserving
+/// parser and the serde front end give the same verdict"); the argument may be invalid UTF-8.
+pub fn cmd_docf(args: &crate::Args) -> String {
+    let b = &args[0];
+    let v = |ok: bool| if ok { "ok" } else { "err" };
+    let slice = toml_edit::de::from_slice::<toml::Table>(b).is_ok();
+    match std::str::from_utf8(b) {
+        Err(_) => format!("utf8=no slice={}", v(slice)),
+        Ok(s) => {
+            let edit = s.parse::<toml_edit::DocumentMut>().is_ok();
+            let im = toml_edit::ImDocument::parse(s).is_ok();
+            let table = toml::from_str::<toml::Table>(s).is_ok();
+            let value = s.parse::<toml::Table>().is_ok();
+            let de = toml_edit::de::from_str::<toml::Table>(s).is_ok();
+            format!(
+                "utf8=yes edit={} im={} toml_table={} toml_parse={} edit_de={} slice={}",
+                v(edit), v(im), v(table), v(value), v(de), v(slice)
+            )
+        }
+    }
+}
